@@ -11,6 +11,7 @@ hand from the comments of core.h (LLBuild/Model/CApi.lean).  The event-by-event 
 client is a separate check; here the forwarding layer itself is decided.
 -/
 import LLBuild.Model.CApi
+import LLBuild.Model.CApiCallbacks
 
 namespace LLBuild.CApi
 open LLBuild.Generated.CApiForward
@@ -60,5 +61,147 @@ theorem C20_bytes_preserved (f : CFn) (env : Nat → Bytes) :
 /-- what a `strlen`-based binding would do to a key containing NUL (why the shape matters) -/
 example : Arg.cross (fun _ => [97, 0, 98]) (.cstrOf 1) = some [97] := by decide
 example : Arg.cross (fun _ => [97, 0, 98]) (.keyOf 1) = some [97, 0, 98] := by decide
+
+/-! ## Callback direction (engine → client)
+
+"... a client driving the engine through `llb_buildengine_*` / the task and rule callbacks of core.h observes the same
+task callbacks, executions, results ... as one using the C++ interface; every byte blob crosses unchanged."
+
+The C++ virtuals `Rule::createTask / isResultValid / updateStatus`, `BuildEngineDelegate::lookupRule / cycleDetected /
+error`, `Task::start / provideValue / inputsAvailable` and the two destructors are what a C++ client observes; the
+binding's overrides turn each into a call of a client function pointer.  `sitesOf`, `unusedMethodParams`, `statusMap`,
+`cycleArray`, `outBlobsIn` are GENERATED from the clang AST of Core-C-API.cpp on every run (extract/x_capi.py);
+`documentedCallback`, `documentedOptional`, `documentedStatus`, `documentedCycleArray` are written by hand from core.h
+(LLBuild/Model/CApiCallbacks.lean).  Every `decide` below evaluates the WHOLE generated table. -/
+section Callbacks
+open LLBuild.Generated.CApiCallbacks
+
+theorem Method.mem_all (m : Method) : m ∈ Method.all := by cases m <;> decide
+theorem Callback.mem_all (cb : Callback) : cb ∈ Callback.all := by cases cb <;> decide
+theorem EngineStatus.mem_all (e : EngineStatus) : e ∈ EngineStatus.all := by cases e <;> decide
+theorem CStatus.mem_all (c : CStatus) : c ∈ CStatus.all := by cases c <;> decide
+
+/-- **C20_callbacks_faithful.**  For every method of the binding's classes and every client call it makes (`∀ site`):
+the generated call equals the documented one — the right callback, the struct's own context first, the remaining
+arguments in the documented order, the client's return value handed to the engine unchanged (`is_result_valid`: for
+every answer `b` the engine receives `b`; `create_task`: the returned handle is the task); no argument is dropped (the
+argument count is the callback's arity, no argument has an unknown shape, the only unused C++ parameters are the
+documented ones); methods documented as silent make no call; and every callback field of core.h is called somewhere. -/
+theorem C20_callbacks_faithful :
+    (∀ m : Method, (sitesOf m).map Site.toDoc = documentedCallback m) ∧
+    (∀ m : Method, ∀ s ∈ sitesOf m,
+        s.args.head? = some .ownContext ∧ s.args.length = s.callback.arity ∧ CbArg.other ∉ s.args ∧
+        s.ret = documentedRet s.callback ∧ unusedMethodParams m = documentedUnused m) ∧
+    (∀ cb : Callback, ∃ m, ∃ s ∈ sitesOf m, s.callback = cb) ∧
+    (∀ m : Method, ∀ s ∈ sitesOf m, s.callback = .rule_is_result_valid → ∀ b : Bool, Ret.verdict s.ret b = some b) := by
+  have table :
+      (∀ m ∈ Method.all, (sitesOf m).map Site.toDoc = documentedCallback m) ∧
+      (∀ m ∈ Method.all, ∀ s ∈ sitesOf m,
+          s.args.head? = some .ownContext ∧ s.args.length = s.callback.arity ∧ CbArg.other ∉ s.args ∧
+          s.ret = documentedRet s.callback ∧ unusedMethodParams m = documentedUnused m) ∧
+      (∀ cb ∈ Callback.all, ∃ m ∈ Method.all, ∃ s ∈ sitesOf m, s.callback = cb) ∧
+      (∀ m ∈ Method.all, ∀ s ∈ sitesOf m, s.callback = .rule_is_result_valid → s.ret = .passThrough) := by decide
+  obtain ⟨h1, h2, h3, h4⟩ := table
+  refine ⟨fun m => h1 m (Method.mem_all m), fun m => h2 m (Method.mem_all m), fun cb => ?_, fun m s hs hc b => ?_⟩
+  · obtain ⟨m, _, s, hs, hc⟩ := h3 cb (Callback.mem_all cb)
+    exact ⟨m, s, hs, hc⟩
+  · rw [h4 m (Method.mem_all m) s hs hc]; rfl
+
+example : (sitesOf .CAPITask_provideValue).map Site.toDoc =
+    [⟨.task_provide_value, [.ownContext, .engineContext, .taskInterface 0, .param 1, .blobOf 3], .void⟩] := by decide
+example : (sitesOf .CAPIRule_isResultValid).map (·.ret) = [.passThrough] := by decide
+/-- what `return cb(...) || value.empty()` / `return !cb(...)` would do to the client's answer -/
+example : Ret.verdict .combined false = none ∧ Ret.verdict .negated false = some true := by decide
+
+/-- **C20_status_kinds_bijective.**  `Rule::StatusKind → llb_rule_status_kind_t` as executed by the binding (the method
+is interpreted once per enumerator) is the documented name-for-name mapping, keeps the numeric value, is injective and
+reaches every C enumerator: the C client is told exactly the status the C++ client is told. -/
+theorem C20_status_kinds_bijective :
+    (∀ e : EngineStatus, statusMap e = some (documentedStatus e)) ∧
+    (∀ e : EngineStatus, (documentedStatus e).value = e.value) ∧
+    (∀ e₁ e₂ : EngineStatus, statusMap e₁ = statusMap e₂ → e₁ = e₂) ∧
+    (∀ c : CStatus, ∃ e, statusMap e = some c) := by
+  have table :
+      (∀ e ∈ EngineStatus.all, statusMap e = some (documentedStatus e)) ∧
+      (∀ e ∈ EngineStatus.all, (documentedStatus e).value = e.value) ∧
+      (∀ e₁ ∈ EngineStatus.all, ∀ e₂ ∈ EngineStatus.all, statusMap e₁ = statusMap e₂ → e₁ = e₂) ∧
+      (∀ c ∈ CStatus.all, ∃ e ∈ EngineStatus.all, statusMap e = some c) := by decide
+  obtain ⟨h1, h2, h3, h4⟩ := table
+  refine ⟨fun e => h1 e (EngineStatus.mem_all e), fun e => h2 e (EngineStatus.mem_all e),
+    fun e₁ e₂ => h3 e₁ (EngineStatus.mem_all e₁) e₂ (EngineStatus.mem_all e₂), fun c => ?_⟩
+  obtain ⟨e, _, he⟩ := h4 c (CStatus.mem_all c)
+  exact ⟨e, he⟩
+
+example : statusMap .IsUpToDate = some .llb_rule_is_up_to_date := by decide
+
+/-- **C20_cycle_order_preserved.**  The key array handed to `cycle_detected` is built as documented — one
+`{key.size(), key.data()}` per item of the engine's list (parameter 0), appended by a single forward loop, the vector
+touched by nothing else — hence for EVERY cycle `keys` the client receives exactly `keys`, in the engine's order; the
+callback gets (context, that array's data, that array's size) and no other callback uses the array. -/
+theorem C20_cycle_order_preserved (keys : List Bytes) :
+    cycleArray = documentedCycleArray ∧
+    ArrayShape.deliver cycleArray keys = some keys ∧
+    (∀ m : Method, ∀ s ∈ sitesOf m, s.callback = .engine_cycle_detected →
+        cycleArray.method = some m ∧ s.args = [.ownContext, .arrayData, .arrayCount]) ∧
+    (∀ m : Method, ∀ s ∈ sitesOf m, (CbArg.arrayData ∈ s.args ∨ CbArg.arrayCount ∈ s.args) → s.callback = .engine_cycle_detected) := by
+  have table :
+      cycleArray = documentedCycleArray ∧
+      (∀ m ∈ Method.all, ∀ s ∈ sitesOf m, s.callback = .engine_cycle_detected →
+          cycleArray.method = some m ∧ s.args = [.ownContext, .arrayData, .arrayCount]) ∧
+      (∀ m ∈ Method.all, ∀ s ∈ sitesOf m, (CbArg.arrayData ∈ s.args ∨ CbArg.arrayCount ∈ s.args) → s.callback = .engine_cycle_detected) := by
+    decide
+  obtain ⟨h1, h2, h3⟩ := table
+  refine ⟨h1, ?_, fun m => h2 m (Method.mem_all m), fun m => h3 m (Method.mem_all m)⟩
+  rw [h1]; rfl
+
+example : ArrayShape.deliver cycleArray [[1, 0, 2], [], [3]] = some [[1, 0, 2], [], [3]] := by decide
+/-- what a reversed loop would hand to the client -/
+example : ArrayShape.deliver ⟨none, some 0, .reversed, true⟩ [[1], [2], [3]] = some [[3], [2], [1]] := by decide
+
+/-- **C20_callback_bytes_preserved.**  Every blob handed to the client through a callback is `{X.size(), X.data()}` of
+one C++ parameter X: for ALL byte contents the client finds exactly X's bytes (NUL included; no `strlen`, no length of
+another object).  Every `llb_data_t{…}` initialiser of every method is accounted for by a blob argument of that method's
+sites (or is the element of the cycle array, a `{key.size(), key.data()}` too), and together with the exported functions'
+these are exactly the initialisers `C20_bytes_preserved` speaks about (`outBlobsSizeData`), all of the `{size, data}` shape. -/
+theorem C20_callback_bytes_preserved (env : Nat → Bytes) :
+    (∀ m : Method, ∀ s ∈ sitesOf m, ∀ a ∈ s.args, CbArg.isBlob a = true →
+        ∃ i, CbArg.blobSource a = some i ∧ CbArg.deliver env a = some (env i)) ∧
+    (∀ m : Method, outBlobsIn m = blobArgs (sitesOf m) + (if cycleArray.method = some m then 1 else 0)) ∧
+    cycleArray.elemIsKeyBlob = true ∧
+    (Method.all.map outBlobsIn).sum + outBlobsInExported = outBlobsSizeData.length ∧
+    (∀ b ∈ outBlobsSizeData, b = true) := by
+  have table :
+      (∀ m ∈ Method.all, ∀ s ∈ sitesOf m, ∀ a ∈ s.args, CbArg.isBlob a = true → (CbArg.blobSource a).isSome = true) ∧
+      (∀ m ∈ Method.all, outBlobsIn m = blobArgs (sitesOf m) + (if cycleArray.method = some m then 1 else 0)) ∧
+      cycleArray.elemIsKeyBlob = true ∧
+      (Method.all.map outBlobsIn).sum + outBlobsInExported = outBlobsSizeData.length ∧
+      (∀ b ∈ outBlobsSizeData, b = true) := by decide
+  obtain ⟨h1, h2, h3, h4, h5⟩ := table
+  refine ⟨fun m s hs a ha hb => ?_, fun m => h2 m (Method.mem_all m), h3, h4, h5⟩
+  have := h1 m (Method.mem_all m) s hs a ha hb
+  cases a <;> simp_all [CbArg.blobSource, CbArg.deliver]
+
+example : CbArg.deliver (fun _ => [118, 0, 0, 255]) (.blobOf 3) = some [118, 0, 0, 255] := by decide
+example : CbArg.deliver (fun _ => [118, 0, 0, 255]) .blobBad = none := by decide
+
+/-- **C20_optional_callbacks_guarded.**  Every call site is guarded exactly as documented: a required callback is
+reached on every execution of its method (no event a C++ client sees is withheld from the C client), an optional one
+(`is_result_valid`, `update_status`, the two `destroy_context`) is called iff it is set, behind a null check of that very
+field and nothing else, and when it is null the method does the documented default (`return true` = result valid;
+return; nothing). -/
+theorem C20_optional_callbacks_guarded :
+    (∀ m : Method, ∀ s ∈ sitesOf m, s.guard = documentedGuard s.callback) ∧
+    (∀ m : Method, ∀ s ∈ sitesOf m, ∀ isSet : Bool,
+        Guard.calls s.guard isSet = some (isSet || (documentedOptional s.callback).isNone)) := by
+  have table : ∀ m ∈ Method.all, ∀ s ∈ sitesOf m, s.guard = documentedGuard s.callback := by decide
+  refine ⟨fun m => table m (Method.mem_all m), fun m s hs isSet => ?_⟩
+  rw [table m (Method.mem_all m) s hs]
+  unfold documentedGuard
+  cases h : documentedOptional s.callback <;> cases isSet <;> simp [Guard.calls]
+
+example : (sitesOf .CAPIRule_isResultValid).map (·.guard) = [.ifNull .rule_is_result_valid .returnTrue] := by decide
+example : (sitesOf .CAPITask_start).map (·.guard) = [.unguarded] := by decide
+
+end Callbacks
 
 end LLBuild.CApi
